@@ -111,6 +111,11 @@ Theorem chain_code_text_unencodable : forall (blake : list N -> list N) body e,
 Proof. intros blake body e. exact (Lemmas.SubstratePath.chain_code_text_unencodable blake _ body e). Qed.
 Print Assumptions chain_code_text_unencodable.
 
+Example chain_code_text_unencodable_ex :   (* a lone surrogate U+D800 *)
+  py_isnumeric [55296] = false /\ utf8_encode [55296] = Err UnicodeError.
+Proof. vm_compute. auto. Qed.
+Print Assumptions chain_code_text_unencodable_ex.
+
 (* SCALE compact integers at the 2^6 / 2^14 / 2^30 mode switches *)
 Theorem scale_compact : forall v,
   (v < 2 ^ 6 -> cuint_encode v = Ok [4 * v]) /\
@@ -173,6 +178,18 @@ Theorem hard_refused_public : forall blake hard soft softpub k el,
   child_key blake hard soft softpub k el = Err (LibError SubstrateKeyError).
 Proof. exact Lemmas.SubstratePath.hard_refused_public. Qed.
 Print Assumptions hard_refused_public.
+
+(* premises satisfiable: a public-only key walks the soft junction /a, then meets the hard junction //b *)
+Example hard_refused_public_path_ex :
+  let blake := fun b : list N => firstn 32 (b ++ repeat 0 32) in
+  let hard := fun cc pk sk : list N => (pk, sk) in
+  let soft := fun cc pk sk : list N => (cc, sk) in
+  let softpub := fun cc pk : list N => cc in
+  let k := mk_skey None (repeat 1 32) [] in
+  k_priv k = None /\ e_hard (mk_elem [98] true) = true /\
+  exists k', derive_path blake hard soft softpub k [mk_elem [97] false] = Ok k'.
+Proof. split; [reflexivity|]. split; [reflexivity|]. eexists. vm_compute. reflexivity. Qed.
+Print Assumptions hard_refused_public_path_ex.
 
 Theorem hard_refused_public_path : forall blake hard soft softpub k p el q k',
   k_priv k = None -> derive_path blake hard soft softpub k p = Ok k' -> e_hard el = true ->
